@@ -443,6 +443,10 @@ func (st *State) decide(cond *T) bool {
 	cond = st.simp(cond)
 	if cond.Op != OConst && len(st.bounds) > 0 {
 		cond = st.foldBounds(cond)
+		// the folded form may be one whose decision is already recorded (see handleFork)
+		if v, ok := st.subst[cond]; ok && v.Op == OConst {
+			cond = v
+		}
 	}
 	if cond.Op == OConst {
 		return cond.K != 0
